@@ -44,6 +44,7 @@ type CheckCfg struct {
 	Extra       []string     `json:"extra_steps"`
 	Parts       []string     `json:"parts"`
 	ZeroStubs   []string     `json:"zero_stubs"` // functions replaced by stubs returning zero values (calls are logged)
+	MaxSteps    int          `json:"max_steps"`  // interpreter step bound per path (default 400000)
 	Gen         *GenCfg      `json:"gen"`        // the code under check is the OUTPUT of the generator built from the repository
 }
 
@@ -53,10 +54,11 @@ type GenCfg struct {
 	Spec       string   `json:"spec"`        // relative to the verif root
 	Args       []string `json:"args"`        // e.g. ["generate","model"]
 	HarnessDir string   `json:"harness_dir"` // relative to the verif root; holds <package>/*.go
+	LoadRepo   bool     `json:"load_repo"`   // generate, but check a package of the repository: harnesses read the generated files (vHostFile)
 }
 
 func (c CheckCfg) harnessRoot() string {
-	if c.Gen != nil && c.Gen.HarnessDir != "" {
+	if c.Gen != nil && c.Gen.HarnessDir != "" && !c.Gen.LoadRepo {
 		return filepath.Join(verifRoot, c.Gen.HarnessDir)
 	}
 	return filepath.Join(verifRoot, "harness")
@@ -305,7 +307,11 @@ func runOne(name string, cfg CheckCfg, tier, repo, only string, workers int, noN
 			writeEvidence(name, id, tier, seed, cfg, nil, nil, time.Since(start), "generation-failed: "+err.Error(), 0, 0)
 			return 2
 		}
-		repo = g
+		if cfg.Gen.LoadRepo {
+			os.Setenv("VERIF_GEN_DIR", g)
+		} else {
+			repo = g
+		}
 	}
 	ov, repl, err := prepareOverlay(cfg.harnessRoot(), repo, cfg.Package, buildDir)
 	if err != nil {
@@ -324,6 +330,9 @@ func runOne(name string, cfg CheckCfg, tier, repo, only string, workers int, noN
 			x.calllog = append(x.calllog, name)
 			return x.zeroResults(fn), true
 		}
+	}
+	if cfg.MaxSteps > 0 {
+		eng.maxSteps = cfg.MaxSteps
 	}
 	eng.initPackage(eng.target, false)
 	eng.bridgeSwagPrefix()
@@ -838,7 +847,11 @@ func runReplayFile(path string) int {
 			fmt.Fprintln(os.Stderr, "gen:", err)
 			return 2
 		}
-		repo = g
+		if cfg.Gen.LoadRepo {
+			os.Setenv("VERIF_GEN_DIR", g)
+		} else {
+			repo = g
+		}
 	}
 	_, repl, err := prepareOverlay(cfg.harnessRoot(), repo, cfg.Package, buildDir)
 	if err != nil {
